@@ -28,7 +28,7 @@ def main():
     pkg = 'rln' if crate == 'rln' else 'zerokit_utils'
     env = dict(os.environ)
     env['CARGO_NET_OFFLINE'] = 'true'
-    env['CARGO_TARGET_DIR'] = '/var/tmp/zkverif-cache/seed-target'
+    env['CARGO_TARGET_DIR'] = os.environ.get('VERIF_SEED_TARGET', '/var/tmp/zkverif-cache/seed-target')
     env['RUST_BACKTRACE'] = '0'
     log = []
     sh('git checkout -q -- . && git clean -fdq -- utils/tests rln/tests', wt)
